@@ -208,7 +208,28 @@ class Fn:
 
     def succ(self, b):
         if self._succ is None:
-            self._succ = [succs(blk["t"]) for blk in self.blocks]
+            out = []
+            for blk in self.blocks:
+                t = blk["t"]
+                ss = succs(t)
+                # a switch on a literal constant has one feasible edge (`if false && ..`, cfg!() tests)
+                cv = None
+                if t["k"] == "switch":
+                    if t["on"].get("const") and "int" in t["on"]:
+                        cv = t["on"]["int"]
+                    else:
+                        l = op_local(t["on"])
+                        if l is not None:
+                            ds = [s for b2 in self.blocks for s in b2["s"] if s["d"]["l"] == l and not s["d"]["p"]]
+                            cds = [b2 for b2 in self.blocks if b2["t"]["k"] == "call" and b2["t"]["dest"]["l"] == l]
+                            if len(ds) == 1 and not cds and ds[0]["r"]["k"] == "use" and ds[0]["r"]["a"].get("const") and "int" in ds[0]["r"]["a"]:
+                                cv = ds[0]["r"]["a"]["int"]
+                if cv is not None:
+                    v = cv
+                    hit = [tb for val, tb in t["targets"] if val == v]
+                    ss = [hit[0]] if hit else [t["otherwise"]]
+                out.append(ss)
+            self._succ = out
         return self._succ[b]
 
     @property
